@@ -66,7 +66,9 @@ def _cons(c, nm, unit):
             "opt": 1 if c.necessarily_optimal else 0}
 
 
-def call(kind, ds, ss, nm, unit, cand):
+def call(kind, ds, ss, nm, unit, cand, algs=None, warm=None):
+    """algs: dict of algorithm instances shared by the calls of one session (None: a fresh instance per call);
+    warm: (dataset, scheme) the shared instance serves first, with its score read (history of the ALGORITHM object)"""
     try:
         if kind == "score":
             u, ex = core.to_units(_impl["K"](ss).get_kemeny_score(cand, ds), unit)
@@ -78,7 +80,18 @@ def call(kind, ds, ss, nm, unit, cand):
             p = getattr(_impl["OP"], kind)(ds, ss)
             return {"v": [sorted(nm.elem(e) for e in g) for g in p]}
         if kind in _impl["algs"]:
-            c = _impl["algs"][kind]().compute_consensus_rankings(ds, ss, True)
+            if algs is None:
+                alg = _impl["algs"][kind]()
+            else:
+                alg = algs.setdefault(kind, _impl["algs"][kind]())
+                if warm is not None:
+                    try:
+                        c0 = alg.compute_consensus_rankings(warm[0], warm[1], True)
+                        _ = c0.kemeny_score
+                        _ = c0.description()
+                    except Exception:
+                        pass
+            c = alg.compute_consensus_rankings(ds, ss, True)
             return {"v": _cons(c, nm, unit)}
         if kind == "read_score":
             c = _impl["algs"]["copeland"]().compute_consensus_rankings(ds, ss, True)
@@ -127,9 +140,18 @@ def run_history(case):
         return rec
     ids = Ids()
     rec["snaps"].append(snapshot(ds, ss, nm, ids))
+    algs = {}
+    warm = None
+    if case.get("warm"):
+        try:
+            wD = [list(reversed(r)) for r in D]
+            warm = (_impl["Dataset"].from_raw_list(nm.raw_dataset(wD), name="other"),
+                    _impl["SS"](core.scheme_float([0, 4, 4, 0, 4, 4], [4, 4, 0, 4, 4, 0], 4)))
+        except Exception:
+            warm = None
     for k, kind in enumerate(case["calls"]):
         random.seed(case["seed"] + k)
-        rec["shared"].append(call(kind, ds, ss, nm, unit, cand))
+        rec["shared"].append(call(kind, ds, ss, nm, unit, cand, algs, warm))
         rec["snaps"].append(snapshot(ds, ss, nm, ids))
         fds, fss, fcand = build()
         random.seed(case["seed"] + k)
